@@ -33,6 +33,11 @@ class Prop:
     def in_known_class(self, line):
         return False
 
+    def observe(self, ctx, stream_name, lines, results):
+        """called after each stream's three-way run with results = {"model": [...],
+        "spec": [...], "impl-<build>": [...]}; returns a list of failure dicts"""
+        return []
+
     def extra_checks(self, ctx):
         """property-specific checks beyond the three-way comparison; returns a list
         of failure dicts (each becomes a violation candidate)"""
@@ -212,6 +217,11 @@ def run(prop, tier, seed, replay=None):
                     if len(samples) < 6 and i in (0, len(lines) // 2):
                         samples.append({"stream": name, "case": l[:400], "impl": (first_impl or "")[:400]})
                 stats[name] = st
+                obs_ctx = {"three_sides": three_sides, "impls": impls, "driver": driver, "rng": rng, "tier": tier}
+                for fdict in prop.observe(obs_ctx, name, lines, r):
+                    st["spec_diffs"] += 1
+                    if len(violations) < 20:
+                        violations.append(fdict)
             # property-specific extra checks
             ctx = {"three_sides": three_sides, "impls": impls, "driver": driver, "rng": rng, "tier": tier}
             for f in prop.extra_checks(ctx):
